@@ -13,7 +13,10 @@ ID = "C16"
 RULE = (
     "Fixtures: every supported fixture, saved with a Hypothesis-chosen query vector (which of row_height, col_width, height/width, "
     "coordinates, header counts, names, caption, flags were read before saving - including nothing) and reopened, 2 (quick) / 3 "
-    "(thorough) cycles, each cycle starting from a fresh open so that unqueried state is really unqueried. API-built documents: "
+    "(thorough) cycles, each cycle starting from a fresh open so that unqueried state is really unqueried. Fixture edits: 1..5 "
+    "row_height/col_width calls (5..500) at generated positions of a source document, after a generated query vector (often "
+    "nothing), then save+reopen: sizes read back as set on the open document and after reopen, all other geometry as the source "
+    "reports it (tables the library warns it does not write are exempt). API-built documents: "
     "any subset of {row_height(r,h), col_width(c,w) with integer points 5..500, header counts, table/sheet names, caption text, "
     "caption/name visibility, coordinates via add_table(x,y)} with and without border strokes (widths 0.25..8) on the sized rows/"
     "columns, drawn before the sizes are set. Oracle: G(table) = (row heights, column widths, height, width, coordinates, header "
@@ -121,6 +124,71 @@ def check_fixture(ctx, case):
         ctx.sample({"fixture": case["fixture"], "query": case["query"], "tables": len(g_ref), "non_default_sizes": nd}, every=9)
     finally:
         shutil.rmtree(tmp, ignore_errors=True)
+
+
+def check_fixture_edit(ctx, case):
+    """Sizes set through the API on a *source* document (nothing else touched first, or after the generated query vector),
+    then save and reopen: what was set is reported as set, everything else as the source reports it."""
+    from numbers_parser import Document
+
+    src = fixtures.DATA / case["fixture"]
+    tmp = Path(tempfile.mkdtemp(prefix="vf_c16e_"))
+    try:
+        with warnings.catch_warnings():
+            warnings.simplefilter("ignore")
+            ref = ctx.guard(("C16", "open"), case, Document, src)
+            if ref is None:
+                return
+            g_ref = ctx.guard(("C16", "geometry_raised"), case, geometry, ref)
+            if g_ref is None:
+                return
+        expect = [dict(g, row_heights=list(g["row_heights"]), col_widths=list(g["col_widths"])) for g in g_ref]
+        applied = []
+        for ti, axis, frac, size in case["sets"]:
+            g = expect[ti % len(expect)]
+            n = g["dims"][0 if axis == "row" else 1]
+            idx = min(n - 1, int(frac * n))
+            applied.append((ti % len(expect), axis, idx, size))
+            g["row_heights" if axis == "row" else "col_widths"][idx] = size
+
+        def one():
+            with warnings.catch_warnings(record=True) as w:
+                warnings.simplefilter("always")
+                d = Document(src)
+                geometry(d, case["query"])
+                tabs = [t for sh in d.sheets for t in sh.tables]
+                for ti, axis, idx, size in applied:
+                    (tabs[ti].row_height if axis == "row" else tabs[ti].col_width)(idx, size)
+                g_open = geometry(d)
+                p = tmp / "e.numbers"
+                d.save(p)
+                g_re = geometry(Document(p))
+            return g_open, g_re, [str(x.message) for x in w]
+
+        res = ctx.guard(("C16", "edit_cycle_raised"), case, one)
+        if res is None:
+            return
+        g_open, g_re, msgs = res
+        # tables the library says it does not write are exempt (the warning names them)
+        exempt = {i for i, g in enumerate(g_ref) if any("Not modifying pivot table" in m and repr(g["names"][1]) in m.replace('"', "'") for m in msgs)}
+        ctx.ev()
+        for tag, got in (("open", g_open), ("reopened", g_re)):
+            keep = [i for i in range(len(expect)) if i not in exempt or tag == "open"]
+            strip = lambda g: {k: v for k, v in g.items() if k not in ("height", "width")}
+            d = gdiff([strip(expect[i]) for i in keep], [strip(got[i]) for i in keep])
+            if d:
+                borders = has_borders(ref)
+                ctx.fail(("C16", "fixture_edit", tag, "unqueried" if not any(case["query"][:2]) else "queried", "with_borders" if borders else "no_borders", *kinds(d)),
+                         case, f"{case['fixture']} sizes {applied} set after query {case['query']}: {tag}: " + " | ".join(d[:4]))
+        ctx.count("fixture_edit_documents")
+        ctx.count("fixture_edit_sizes", len(applied))
+        ctx.nt((case["fixture"], case["query"], tuple(applied)))
+        ctx.sample({"fixture": case["fixture"], "query": case["query"], "sets": applied[:4]}, every=17)
+    finally:
+        shutil.rmtree(tmp, ignore_errors=True)
+
+
+size_sets = st.lists(st.tuples(st.integers(0, 5), st.sampled_from(["row", "col"]), st.floats(0, 0.999), st.integers(5, 500)).map(list), min_size=1, max_size=5)
 
 
 def has_borders(doc):
@@ -273,6 +341,10 @@ def tasks(tier, seed):
     for name in sorted(fixtures.SUPPORTED, key=lambda n: n not in big):
         t.append(("fixture", {"fixture": name, "n": 0 if (tier == "quick" and name in big) else (1 if tier == "quick" else 3), "cycles": 2 if tier == "quick" else 3,
                               "seed": derive_seed(seed, "c16", name)}))
+    for name in sorted(fixtures.SUPPORTED, key=lambda n: n not in big):
+        if tier == "quick" and name in big:
+            continue
+        t.append(("fixture_edit", {"fixture": name, "n": 2 if tier == "quick" else 12, "seed": derive_seed(seed, "c16e", name)}))
     for k in range(16):
         t.append(("built", {"n": 5 if tier == "quick" else 95, "cycles": 2 if tier == "quick" else 3, "seed": derive_seed(seed, "c16b", k)}))
     return t
@@ -291,6 +363,12 @@ def run_task(ctx, lane, **kw):
                 check_fixture(ctx, {"lane": "fixture", "fixture": kw["fixture"], "query": q, "cycles": kw["cycles"]})
 
             run_given(ctx, queries, body, kw["n"], kw["seed"], phases=(Phase.explicit, Phase.generate))
+    elif lane == "fixture_edit":
+        def body(c):
+            sets, q = c
+            check_fixture_edit(ctx, {"lane": "fixture_edit", "fixture": kw["fixture"], "sets": sets, "query": q})
+
+        run_given(ctx, st.tuples(size_sets, queries), body, kw["n"], kw["seed"], phases=(Phase.explicit, Phase.generate))
     elif lane == "built":
         def body(c):
             spec, q = c
@@ -305,5 +383,7 @@ def check_case(ctx, case):
     case = {k: v for k, v in case.items() if k != "has_borders"}
     if case["lane"] == "fixture":
         check_fixture(ctx, case)
+    elif case["lane"] == "fixture_edit":
+        check_fixture_edit(ctx, case)
     else:
         check_built(ctx, case)
